@@ -384,6 +384,14 @@ func (c20) Eval(c *Chooser, env *Env) *Outcome {
 		files = append(files, p)
 		texts[p] = t
 	}
+	// or the last argument is a directory (somebody passed .github/workflows itself): reading it fails,
+	// the run is fatal, and again nothing may be left running when the call returns
+	dirArg := ""
+	if !brokenRepo && len(files) >= 2 && c.Weighted("world.dirarg", 1, 10) {
+		dirArg = root + "/.github/workflows"
+		files = append(files, dirArg)
+		brokenRepo = true
+	}
 	tools := &Tools{Missing: map[string]bool{}, Faults: map[string]ToolFault{}, Errno: map[string]int64{}}
 	haveSC, havePF := true, true
 	switch c.Int("world.tools", 6) {
@@ -449,6 +457,9 @@ func (c20) Eval(c *Chooser, env *Env) *Outcome {
 	// reference model
 	var expect []c20Inv
 	for _, f := range files {
+		if f == dirArg {
+			continue
+		}
 		inv, err := c20Model(f, texts[f], haveSC, havePF)
 		if err != nil {
 			o.probe("generator_yaml_error", 1)
@@ -617,7 +628,7 @@ func (c20) Eval(c *Chooser, env *Env) *Outcome {
 	}
 	if brokenRepo {
 		if res.Fatal == "" {
-			o.V = &Violation{Oracle: "no-fatal", Class: "unloadable-config-not-fatal", Message: "the configuration of the last argument's repository cannot be loaded but the call returned a normal result"}
+			o.V = &Violation{Oracle: "no-fatal", Class: "unloadable-config-not-fatal", Message: "the configuration of the last argument's repository cannot be loaded (or the last argument is a directory: " + dirArg + ") but the call returned a normal result"}
 		}
 		return o
 	}
